@@ -2,7 +2,7 @@
    Print Assumptions.  Costs are integers (dyadic floats scaled by 2^30; 2^-26 is 16). *)
 From Coq Require Import ZArith List Bool.
 From Centro Require Import Base.Sx Model.Lapjv Spec.Lapjv Proofs.LapjvCert Proofs.LapjvRefute Proofs.LapjvTrack
-  Proofs.LapjvPhases Proofs.LapjvAbstract Proofs.LapjvGrid Proofs.LapjvArr Proofs.LapjvRows Proofs.LapjvTrackCost Proofs.LapjvRt Proofs.LapjvHall Proofs.LapjvBsearch Proofs.LapjvTrackLink Proofs.LapjvArrExt Proofs.LapjvExtModel Proofs.LapjvAugMarks Proofs.LapjvAugFlip Proofs.LapjvAugPred Proofs.LapjvAugRows Proofs.LapjvPerm Proofs.LapjvFixedPerm Proofs.LapjvAugFuel Proofs.LapjvAugPrice Proofs.LapjvAugStamps Proofs.LapjvAugOpt Proofs.LapjvAugDist Proofs.LapjvAugDistHyp Proofs.LapjvAugPriceExt Proofs.LapjvReserved Proofs.LapjvRefPerm.
+  Proofs.LapjvPhases Proofs.LapjvAbstract Proofs.LapjvGrid Proofs.LapjvArr Proofs.LapjvRows Proofs.LapjvTrackCost Proofs.LapjvRt Proofs.LapjvHall Proofs.LapjvBsearch Proofs.LapjvTrackLink Proofs.LapjvArrExt Proofs.LapjvExtModel Proofs.LapjvAugMarks Proofs.LapjvAugFlip Proofs.LapjvAugPred Proofs.LapjvAugRows Proofs.LapjvPerm Proofs.LapjvFixedPerm Proofs.LapjvAugFuel Proofs.LapjvAugPrice Proofs.LapjvAugStamps Proofs.LapjvAugOpt Proofs.LapjvAugDist Proofs.LapjvAugDistHyp Proofs.LapjvAugPriceExt Proofs.LapjvReserved Proofs.LapjvRefPerm Proofs.LapjvAugDistR Proofs.LapjvAugDistHypR Proofs.LapjvAugTotalR.
 Import ListNotations.
 Open Scope Z_scope.
 
@@ -523,8 +523,7 @@ Print Assumptions C01_inf_sentinel_refuted.
 
 (* the reference variant (true infinity in augment) with the row offset repaired and the tie band off: whenever it returns,
    x is a perfect matching over listed pairs and x, y are mutually inverse permutations (same proof as C01_lapjv_fixed_pm:
-   none of the structural proofs looks at the value of inf).  NOT yet re-established for lapjv_ref: the distance invariant /
-   optimality (Proofs.LapjvAugDist is written for a finite inf) and "always returns". *)
+   none of the structural proofs looks at the value of inf).  Optimality for lapjv_ref: C01_lapjv_ref_fixed_optimal below. *)
 Theorem C01_lapjv_ref_fixed_pm : forall n tri,
   (forall t, In t tri -> (t_i t < n)%nat /\ (t_j t < n)%nat) ->
   NoDup (map fst tri) ->
@@ -534,6 +533,57 @@ Theorem C01_lapjv_ref_fixed_pm : forall n tri,
   lapjv_ref Fixed 0 epsr k n tri = Some (x, y, u, v) -> PM n tri x /\ Inverse n x y.
 Proof. exact lapjv_ref_fixed_pm. Qed.
 Print Assumptions C01_lapjv_ref_fixed_pm.
+
+(* Round 11: the distance invariant ported to the reference variant (d in Fin | +inf; "d finite" is carried explicitly in the
+   loop-head invariant Proofs.LapjvAugDistR.K, a finite relaxation always lowers an untouched +inf). *)
+Theorem C01_aug_dist_invR : forall (n : nat) (rows : list (list (nat * ext))),
+  (forall i j c, In (j, c) (row rows i) -> (j < n)%nat /\ exists z, c = Fin z) ->
+  (forall i, NoDup (map fst (row rows i))) ->
+  DistHyp n rows PInf.
+Proof. exact aug_dist_invR. Qed.
+Print Assumptions C01_aug_dist_invR.
+
+(* "returns => optimal" for the reference variant (true infinity in augment), inputs with >= 2 candidates per row *)
+Theorem C01_lapjv_ref_fixed_optimal : forall n tri,
+  (forall t, In t tri -> (t_i t < n)%nat /\ (t_j t < n)%nat) ->
+  NoDup (map fst tri) ->
+  (forall j, (j < n)%nat -> exists t, In t tri /\ t_j t = j) ->
+  has_PM n tri ->
+  (forall i, (i < n)%nat -> (2 <= length (filter (fun t => (t_i t =? i)%nat) tri))%nat) ->
+  forall epsr k x y u v, 0 <= epsr ->
+  lapjv_ref Fixed 0 epsr k n tri = Some (x, y, u, v) -> Optimal n tri x.
+Proof. exact lapjv_ref_fixed_optimal. Qed.
+Print Assumptions C01_lapjv_ref_fixed_optimal.
+
+Theorem C01_lapjv_ref_fixed_optimal_grid : forall n tri g eps epsr k x y u v,
+  (forall t, In t tri -> (t_i t < n)%nat /\ (t_j t < n)%nat) ->
+  NoDup (map fst tri) ->
+  (forall j, (j < n)%nat -> exists t, In t tri /\ t_j t = j) ->
+  has_PM n tri ->
+  (forall i, (i < n)%nat -> (2 <= length (filter (fun t => (t_i t =? i)%nat) tri))%nat) ->
+  0 <= eps < g -> 0 <= epsr < g -> (forall t, In t tri -> (g | t_c t)) ->
+  lapjv_ref Fixed eps epsr k n tri = Some (x, y, u, v) -> Optimal n tri x.
+Proof. exact lapjv_ref_fixed_optimal_grid. Qed.
+Print Assumptions C01_lapjv_ref_fixed_optimal_grid.
+
+(* aug_scan_nonempty for the reference variant, by the Hall-block argument: at a loop head satisfying the invariant K with the
+   edge families Fd / Gd and an exhausted scan list, the rebuild (aug_min from +inf) returns a NON-EMPTY scan list whenever the
+   row structure has no Hall block (has_PM gives this through C01_hall_block): every candidate of the free row and of the rows
+   of ready columns has a finite d, hence is on to_do or in ready; if all to_do columns were done, |ready| + 1 rows would have
+   all their candidates among |ready| columns.  So the read p_scan[low] after a rebuild is always inside the list.
+   NOT yet derived from it: C01_lapjv_ref_augment_total (missing lemma: aug_loop_totalR - the induction of aug_loop_distR
+   redone with "exists result", using this theorem, C01_aug_loop_fuel and C01_aug_lookup_defined). *)
+Theorem C01_aug_scan_nonempty_ref : forall (r n : nat) (rows : list (list (nat * ext))) (x y : list nat) (v : list ext),
+  (forall i j c, In (j, c) (row rows i) -> (j < n)%nat /\ exists z, c = Fin z) ->
+  Inv n rows x y v ->
+  (forall L C : list nat, NoDup L -> (forall i, In i L -> (i < n)%nat) ->
+     (forall i j c, In i L -> In (j, c) (row rows i) -> In j C) -> (length L <= length C)%nat) ->
+  forall s mu, FinV n v -> (r < n)%nat -> free n y r ->
+  LapjvAugDistR.K r n rows y v s mu -> LapjvAugDistR.Fd r rows v (g_d s) -> LapjvAugDistR.Gd n rows y v (g_d s) (g_ready s) ->
+  g_scan s = [] ->
+  snd (aug_min r n (g_d s) (g_done s) (g_todo s) PInf []) <> [].
+Proof. exact rebuild_nonempty. Qed.
+Print Assumptions C01_aug_scan_nonempty_ref.
 
 (* completeness of phases 1-3 (every row is pending or assigned) ... *)
 Theorem C01_phase1_comp : forall n tri,
